@@ -168,6 +168,7 @@ type srvRun struct {
 	Running  int
 	MaxRun   int
 	sendTags [][]string // per sent record: tags of its members (for "read" events)
+	Leaked   []string   // library goroutines still alive after WaitStatus returned
 	readRecs []string   // text of each record the reader received, in order
 	heldOpen bool       // phase 2: gates of held handlers (tags starting with "H") may be released
 }
@@ -528,9 +529,6 @@ func runServerScenario(t *testing.T, sc *srvScenario, pickFn func(n int) int, sk
 		r.logf("quiescent reserved=%v callbacks=%v queue=%d running=%v", r.Snap.Reserved, r.Snap.Callbacks, r.Snap.QueueLen, r.Snap.Running)
 		// shut down: let everything run freely from here
 		r.sched.releaseAll()
-		for _, c := range r.cbCancel {
-			c()
-		}
 		r.cli.Close()
 		if statusCh == nil {
 			statusCh = make(chan jrpc2.ServerStatus, 1)
@@ -574,6 +572,18 @@ func runServerScenario(t *testing.T, sc *srvScenario, pickFn func(n int) int, sk
 		}
 		synctest.Wait()
 		r.drainOut()
+		if r.Status != nil {
+			// the server has fully exited: no goroutine of the library may be left, although the
+			// contexts of outside callers are still alive
+			if left := libGoroutines(); len(left) > 0 {
+				r.Leaked = left
+				r.logf("leaked %s", strings.Join(left, ";"))
+			}
+		}
+		for _, c := range r.cbCancel {
+			c()
+		}
+		synctest.Wait()
 		if sc.Restart && r.Status != nil {
 			c2, s2 := newVPair()
 			r.srv.Start(s2)
@@ -679,4 +689,24 @@ func (r *srvRun) readText(k string) string {
 		return r.readRecs[i]
 	}
 	return ""
+}
+
+// libGoroutines lists goroutines that are executing library code (a frame in package jrpc2 that is
+// not a test frame), one line each: the innermost library function.
+func libGoroutines() []string {
+	buf := make([]byte, 1<<20)
+	n := runtime.Stack(buf, true)
+	var out []string
+	for _, g := range strings.Split(string(buf[:n]), "\n\n") {
+		if strings.Contains(g, "libGoroutines") {
+			continue // the calling goroutine
+		}
+		for _, line := range strings.Split(g, "\n") {
+			if strings.HasPrefix(line, "github.com/creachadair/jrpc2.") || strings.HasPrefix(line, "github.com/creachadair/jrpc2/") {
+				out = append(out, strings.SplitN(line, "(0x", 2)[0])
+				break
+			}
+		}
+	}
+	return out
 }
